@@ -32,6 +32,13 @@ import os
 DEBUG = bool(os.environ.get("PYVC_DEBUG"))
 
 
+def _identity(interp, x, *a, **k):
+    return x
+
+
+DEFAULT_EXTERNALS = {"pathlib.Path": _identity}
+
+
 class Args(dict):
     __getattr__ = dict.__getitem__
 
@@ -45,6 +52,7 @@ class Spec:
     properties: tuple = ()
     callees: dict = {}  # qual -> Spec instance used modularly at call sites
     inline: tuple | None = None  # repo functions that may be inlined (None: any)
+    externals: dict = {}  # assumed models of external callables, by dotted name
     expect_raises: bool = False
     max_paths = 400
 
@@ -192,6 +200,23 @@ def compare(cx, actual, expected, label, seen=None, kind="post"):
     cx.oblige(f"{label} equals specification", V.s_cmp("==", actual, expected), kind=kind)
 
 
+def own_index_only(term, p, decl_names):
+    """Structural non-interference check: every application of a per-particle array (1-ary uninterpreted
+    function named in decl_names) inside ``term`` is at the index ``p`` itself."""
+    stack = [V.to_z3(term)]
+    seen = set()
+    while stack:
+        x = stack.pop()
+        if x.get_id() in seen or not z3.is_app(x):
+            continue
+        seen.add(x.get_id())
+        if x.num_args() == 1 and x.decl().kind() == z3.Z3_OP_UNINTERPRETED and x.decl().name() in decl_names:
+            if not x.arg(0).eq(p):
+                return False
+        stack.extend(x.children())
+    return True
+
+
 # ---------------------------------------------------------------- driver
 
 
@@ -260,7 +285,7 @@ def run_unit(spec: Spec, repo: Repo | None = None, timeout_s=20.0, want_smt2=Fal
         from .numpy_model import TRANSC_APPS
 
         TRANSC_APPS.clear()
-        cx = Ctx(repo, decisions=dec, specs=specs, inline_ok=set(spec.inline) if spec.inline is not None else None)
+        cx = Ctx(repo, decisions=dec, specs=specs, inline_ok=set(spec.inline) if spec.inline is not None else None, externals=dict(DEFAULT_EXTERNALS, **spec.externals))
         interp = Interp(cx)
         try:
             a = spec.inputs(cx)
